@@ -1115,10 +1115,22 @@ package engine
 //@   modifies nothing
 //@   ensures[the-empty-string-is-the-empty-list] len(s) == 0 ==> result == atomEmptyList
 //@   ensures[a-code-list-otherwise] len(s) > 0 ==> result is codeList && (result as codeList) == s
+//@ spec abstract oneRune(s string) bool
+//@ spec abstract theRune(s string) int
+//@ extern unicode/utf8.DecodeLastRuneInString
+//@   pure
+//@   ensures 0 <= result1 && result1 <= 4 && result1 <= len(s) && 0 <= result0 && result0 <= 1114111
+//@   ensures (result1 == 0) == (len(s) == 0)
+//@   ensures result0 == 65533 ==> result1 == 0 || result1 == 1 || result1 == 3
+//@   ensures oneRune(s) == (len(s) > 0 && result1 == len(s) && !(result0 == 65533 && result1 == 1))
+//@   ensures oneRune(s) ==> result0 == theRune(s)
 //@ func NewAtom
-//@   trusted
+//@   property C02
 //@   pure
 //@   deterministic
+//@   nosafety
+//@   trusted-frame
+//@   ensures[a-one-character-name-is-its-code-point] oneRune(name) ==> result == theRune(name)
 
 //@ func unDoubleQuote
 //@   trusted
